@@ -136,14 +136,12 @@ theorem adjustTxs_sfla {tx : Tx} {c : Rat} {l : List (Aff × Rat × Rat)} {r : L
     · cases h
     · rename_i r0 hr0
       split at h
-      · split at h
-        · cases h
-        · simp only [Except.ok.injEq] at h; subst h
-          intro x hx
-          simp only [List.mem_cons] at hx
-          rcases hx with rfl | hx
-          · exact ⟨_, _, rfl⟩
-          · exact ih hr0 x hx
+      · simp only [Except.ok.injEq] at h; subst h
+        intro x hx
+        simp only [List.mem_cons] at hx
+        rcases hx with rfl | hx
+        · exact ⟨_, _, rfl⟩
+        · exact ih hr0 x hx
       · simp only [Except.ok.injEq] at h; subst h
         exact ih hr0
 
